@@ -25,10 +25,20 @@ func runSpareCap(p *core.Prog) *core.Result {
 	if err != nil {
 		return res.Fail(err)
 	}
+	// the same discipline holds for valueArrayCache (the per-element wrapper cache of reflect-backed
+	// arrays): grow() re-slices into spare capacity, shrink() must clear what it cuts off
+	isCachePtr := func(t types.Type) bool {
+		pt, ok := t.Underlying().(*types.Pointer)
+		return ok && core.IsGojaNamed(pt.Elem(), "valueArrayCache")
+	}
+	arrOnly := false
 	isValuesLoad := func(v ssa.Value) bool {
 		ld, ok := v.(*ssa.UnOp)
 		if !ok || ld.Op != token.MUL {
 			return false
+		}
+		if isCachePtr(ld.X.Type()) {
+			return !arrOnly
 		}
 		fa, ok := ld.X.(*ssa.FieldAddr)
 		return ok && core.FieldOf(fa) == fValues
@@ -144,7 +154,20 @@ func runSpareCap(p *core.Prog) *core.Result {
 	nShrink, nGrow := 0, 0
 	seq := map[string]int{}
 	removers := map[*ssa.Function]ssa.Instruction{} // functions that take elements out of .values
-	for _, w := range p.FieldWrites(fValues) {
+	writes := append([]*core.FieldWrite{}, p.FieldWrites(fValues)...)
+	cacheFns := map[*ssa.Function]bool{}
+	for _, fn := range p.Funcs {
+		if !p.InModule(fn) {
+			continue
+		}
+		core.AllInstrs(fn, func(in ssa.Instruction) {
+			if st, ok := in.(*ssa.Store); ok && isCachePtr(st.Addr.Type()) {
+				writes = append(writes, &core.FieldWrite{Instr: in, Fn: fn, Kind: "store", Val: st.Val})
+				cacheFns[fn] = true
+			}
+		})
+	}
+	for _, w := range writes {
 		if w.Kind != "store" || w.Val == nil {
 			continue
 		}
@@ -221,7 +244,13 @@ func runSpareCap(p *core.Prog) *core.Result {
 		if !p.InModule(fn) {
 			continue
 		}
-		for _, c := range clearers(fn) {
+		if cacheFns[fn] {
+			continue
+		}
+		arrOnly = true
+		cl := clearers(fn)
+		arrOnly = false
+		for _, c := range cl {
 			if _, ok := removers[fn]; !ok {
 				removers[fn] = c
 			}
@@ -254,7 +283,9 @@ func runSpareCap(p *core.Prog) *core.Result {
 	}
 	var rfns []*ssa.Function
 	for fn := range removers {
-		rfns = append(rfns, fn)
+		if !cacheFns[fn] {
+			rfns = append(rfns, fn)
+		}
 	}
 	sort.Slice(rfns, func(i, j int) bool { return core.FuncName(rfns[i]) < core.FuncName(rfns[j]) })
 	for _, fn := range rfns {
@@ -262,6 +293,52 @@ func runSpareCap(p *core.Prog) *core.Result {
 		pos := p.Pos(removers[fn].Pos())
 		if writesObjCount(fn) {
 			res.OK(key, pos, "the function that removes elements from .values also updates objCount")
+			// per site: every store to .values in such a function is covered by an objCount update
+			// (one that dominates it, one in a loop whose header dominates it, or one that follows
+			// it on every path to a return)
+			var ocStores []ssa.Instruction
+			core.AllInstrs(fn, func(in ssa.Instruction) {
+				if st, ok := in.(*ssa.Store); ok {
+					if fa, ok := st.Addr.(*ssa.FieldAddr); ok && core.FieldOf(fa) == fObjCount {
+						ocStores = append(ocStores, in)
+					}
+				}
+			})
+			if len(ocStores) == 0 {
+				continue // updated through a callee
+			}
+			k := 0
+			for _, w := range p.FieldWrites(fValues) {
+				if w.Fn != fn || w.Kind != "store" {
+					continue
+				}
+				k++
+				skey := fmt.Sprintf("%s:objCount covers store to .values#%d", core.FuncName(fn), k)
+				covered := ""
+				for _, oc := range ocStores {
+					switch {
+					case core.InstrDominates(oc, w.Instr):
+						covered = "updated before, at " + p.Pos(oc.Pos())
+					case core.InstrDominates(w.Instr, oc) && (w.Instr.Block() == oc.Block() || !reachesReturnAvoiding(w.Instr.Block(), oc.Block())):
+						covered = "updated after on every path, at " + p.Pos(oc.Pos())
+					default:
+						ob := oc.Block()
+						for h := w.Instr.Block(); h != nil; h = h.Idom() {
+							if h != ob && h.Dominates(ob) && core.Reaches(ob, h) {
+								covered = "updated by the loop at " + p.Pos(oc.Pos())
+							}
+						}
+					}
+					if covered != "" {
+						break
+					}
+				}
+				if covered != "" {
+					res.OK(skey, p.Pos(w.Instr.Pos()), covered)
+				} else {
+					res.Bad(skey, p.Pos(w.Instr.Pos()), "this function removes elements and maintains objCount, but on the path through this store to .values no objCount update happens (a truncation that copies into a smaller slice, say): objCount over-counts afterwards and an array with holes can pass checkStdArrayObj()")
+				}
+			}
 		} else {
 			res.Bad(key, pos, "elements are removed from arrayObject.values here but objCount is never adjusted: it over-counts from then on, and a later sparse write can make objCount == length == len(values) hold for an array with holes, which checkStdArrayObj() takes as proof of a dense array (fast paths then read nil elements)")
 		}
@@ -446,4 +523,39 @@ func runSortBound(p *core.Prog) *core.Result {
 		}
 	}
 	return res
+}
+
+
+// reachesReturnAvoiding: can a return be reached from block `from` without passing block `avoid`?
+func reachesReturnAvoiding(from, avoid *ssa.BasicBlock) bool {
+	seen := map[*ssa.BasicBlock]bool{}
+	var walk func(b *ssa.BasicBlock) bool
+	walk = func(b *ssa.BasicBlock) bool {
+		if b == avoid || seen[b] {
+			return false
+		}
+		seen[b] = true
+		if len(b.Instrs) > 0 {
+			if _, ok := b.Instrs[len(b.Instrs)-1].(*ssa.Return); ok {
+				return true
+			}
+		}
+		for _, s := range b.Succs {
+			if walk(s) {
+				return true
+			}
+		}
+		return false
+	}
+	for _, s := range from.Succs {
+		if walk(s) {
+			return true
+		}
+	}
+	if len(from.Instrs) > 0 {
+		if _, ok := from.Instrs[len(from.Instrs)-1].(*ssa.Return); ok && from != avoid {
+			return true
+		}
+	}
+	return false
 }
